@@ -29,6 +29,11 @@ OBLIGATIONS = [
     'C18.passWire_adjacent', 'C18.feedWire_adjacent', 'C18.passthroughCreation_connected', 'C18.exMC_pass_hyps',
     # non-vacuity on the real ModuloCounter
     'C18.exMC_column', 'C18.exMC_feedback_edge', 'C18.exMC_feedback_is_cycle', 'C18.exMC_pass', 'C18.exMC_passWire_ok', 'C18.ex_tracks',
+    # pin geometry of the symbol classes (model Schem.Pins, stream pin-model) and its composition with the placement model
+    'C18.lastIdx_nodup', 'C18.pins_injective', 'C18.pins_injective_iff', 'C18.pins_injective_realizable', 'C18.binop3_collision',
+    'C18.binop_only_collision', 'C18.same_name_same_pos', 'C18.pins_in_box', 'C18.pins_tidy_realizable', 'C18.scope4_outside',
+    'C18.scope4_meets_marker', 'C18.std_roomy', 'C18.sym_pins_injective', 'C18.pins_apart_of_placement', 'C18.pinPos_injective',
+    'C18.vertical_run_misses_pins', 'C18.ex_addco_injective', 'C18.ex_shapes_ok', 'C18.ex_pinPos_hyps', 'C18.ex_pins_distinct', 'C18.exScope_counterexample', 'C18.exScope_shape',
 ]
 
 # proposals for /verif/known_findings.json (the integrator merges them); applied locally until they are listed there.
@@ -55,12 +60,22 @@ PROPOSED_FINDINGS = [
     {"id": "C18-self-loop", "property": "C18", "status": "known", "anchor": "py4hw/schematic.py:1139",
      "class_expr": "r.get('stage') == 'check' and r['feat']['selfloop'] > 0 and "
                    "set(r['kinds']) <= {'foreignPin', 'notPlaced', 'readerUntouched', 'stray', 'logDisconnected', 'geoDisconnected'} and "
-                   "(set(r['kinds']) <= {'foreignPin'} or 'AssertionError' in r['abort'])",
+                   "('AssertionError' in r['abort'] or (set(r['kinds']) <= {'foreignPin'} and r.get('self_nets', 0) == 0))",
      "witness": {"kind": "plan", "w": 8, "nin": 1, "nfree": 0, "outs": [["n", 0, 0]], "nodes": [
          {"k": "RegEn", "ni": 2, "no": 1, "ins": [["n", 0, 0], ["in", 0]], "p": {"v": 0}}]},
      "what": "an instance reading its own output: in column 1 insertFeedback hits assert(sinkcol > 0) after deleting the net (the reader is "
              "left unconnected, a marker is left outside the grid); in later columns the last feedback segment is drawn straight "
              "through the neighbouring column, over pins of other wires"},
+    {"id": "C18-scope-pin-below-box", "property": "C18", "status": "known", "anchor": "py4hw/schematic_symbols.py:700",
+     "class_expr": "r.get('stage') == 'check' and r['feat']['scope4'] > 0 and set(r['kinds']) <= {'foreignPin'} and len(r['fp_hits']) > 0 and "
+                   "all(h[0] in ('Scope', 'Waveform') and h[1] == 'in' and h[2] >= 3 for h in r['fp_hits'])",
+     "witness": {"kind": "plan", "w": 4, "nin": 4, "nfree": 0, "outs": [["n", 1, 0]], "nodes": [
+         {"k": "Not", "ni": 1, "no": 1, "ins": [["in", 0]], "p": {"v": 0}},
+         {"k": "And2", "ni": 2, "no": 1, "ins": [["in", 1], ["n", 0, 0]], "p": {"v": 0}},
+         {"k": "Scope", "ni": 4, "no": 0, "ins": [["in", 0], ["in", 1], ["in", 2], ["in", 3]], "p": {"v": 0}}]},
+     "what": "Scope/Waveform symbol with a fourth input: ScopeSymbol.getHeight is 80 whatever the number of inputs, so input pins 3.. are "
+             "reported below the symbol's box (pin 3 at y+105); replaceAsColRow puts the next row at y+95, where the sink pin of a "
+             "pass-through marker of the same column (y+95+10) meets pin 3: the figure of the passing wire touches a pin of another wire"},
 ]
 
 BUDGET_S = 30.0          # wall-clock budget for one Schematic(obj): the termination clause (+ n_inst^2/1000 s: the passes are
@@ -283,8 +298,12 @@ def export_layout(s, obj, des):
                 raise
             except Exception:
                 return None
+        nid = {}
+
+        def names(ps, nid=nid):
+            return [nid.setdefault(getattr(p, 'name', None), len(nid)) for p in ps]
         r, c = getattr(o, 'r', None), getattr(o, 'c', None)
-        syms.append(dict(kind=kind, ref=ref, cell=(int(r), int(c)) if (r is not None and c is not None) else None,
+        syms.append(dict(inames=names(ins), onames=names(outs), kind=kind, ref=ref, cell=(int(r), int(c)) if (r is not None and c is not None) else None,
                          x=_int(o.x), y=_int(o.y), w=_int(o.getWidth()), h=_int(o.getHeight()),
                          ipins=[pos(o.getPortSinkPos, p) for p in ins], opins=[pos(o.getPortSourcePos, p) for p in outs],
                          name=str(getattr(o, 'name', '?')), cls=type(o).__name__))
@@ -400,12 +419,14 @@ def route_request(L, consts):
 
 def features(des):
     f = dict(binop3=0, binop3_wires=[], dupsink=0, selfloop=0, n_inst=len(des['insts']), n_wires=des['nw'],
-             max_fanout=0, multi_out=0)
+             max_fanout=0, multi_out=0, scope4=0)
     fan = {}
     for i in des['insts']:
         if i['cls'] in ('Add', 'Sub', 'Mul') and len(i['ins']) >= 3:
             f['binop3'] += 1
             f['binop3_wires'] += i['ins'][1:]
+        if i['cls'] in ('Scope', 'Waveform') and len(i['ins']) >= 4:
+            f['scope4'] += 1
         if len(set(i['ins'])) < len(i['ins']):
             f['dupsink'] += 1
         if set(i['ins']) & set(i['outs']):
@@ -422,18 +443,202 @@ def features(des):
 
 
 def fail_or_known(res, what, replay):
-    """res.fail, with the proposed findings consulted in addition to known_findings.json"""
+    """res.fail, with the class predicates of PROPOSED_FINDINGS as the authority for this property's findings: a proposal that is not
+    yet listed in known_findings.json is applied from here; a LISTED entry whose class_expr is broader than the (sharpened) one here
+    must not mask a failure that the sharpened class excludes — such a failure is recorded as a violation"""
     listed = {k.get('id') for k in load_known()}
+    mine = {k['id'] for k in PROPOSED_FINDINGS}
     for k in PROPOSED_FINDINGS:
-        if k['id'] not in listed and common._matches(k, what, replay):
-            res.known_hits.append((k, what))
-            note = f"{k['id']} pending merge into known_findings.json; class predicate applied from harness/c18.py"
+        if common._matches(k, what, replay):
+            if k['id'] not in listed:
+                res.known_hits.append((k, what))
+                note = f"{k['id']} pending merge into known_findings.json; class predicate applied from harness/c18.py"
+                if note not in res.notes:
+                    res.notes.append(note)
+                return True
+            n = len(res.failures)
+            res.fail(what, replay)
+            return len(res.failures) == n
+    for k in load_known():
+        if k.get('property') == 'C18' and k.get('id') in mine and common._matches(k, what, replay):
+            note = (f"{k['id']}: the class_expr listed in known_findings.json is broader than the one in harness/c18.py; a failure outside the "
+                    f"sharpened class is reported as a violation")
             if note not in res.notes:
                 res.notes.append(note)
-            return True
+            res.failures.append({'what': what, 'replay': replay})
+            return False
     n = len(res.failures)
     res.fail(what, replay)
     return len(res.failures) == n
+
+
+# ------------------------------------------------------------------------------------------------
+# pin geometry: symbol class of schematic_symbols.py -> class number of the Lean model (Schem.Pins.clsOfNat)
+PIN_CLS = {'LogicSymbol': 0, 'VirtualSymbol': 0, 'InstanceSymbol': 0, 'RegSymbol': 1, 'ScopeSymbol': 2, 'BufSymbol': 3,
+           'BinaryOperatorSymbol': 4, 'AddSymbol': 4, 'SubSymbol': 4, 'MulSymbol': 4, 'AndSymbol': 5, 'OrSymbol': 6, 'NorSymbol': 7,
+           'XorSymbol': 8, 'NotSymbol': 9, 'BitSymbol': 10, 'RangeSymbol': 11, 'Mux2Symbol': 12, 'InPortSymbol': 13, 'OutPortSymbol': 14,
+           'InOutPortSymbol': 15, 'PassthroughSymbol': 16, 'FeedbackStartSymbol': 17, 'FeedbackStopSymbol': 18, 'MissingConnectionSymbol': 19}
+
+
+def pins_request(cls_no, iw, inames, onames):
+    return f"pins | {cls_no},{iw} | {','.join(str(v) for v in inames)} | {','.join(str(v) for v in onames)}"
+
+
+def parse_pins_answer(a):
+    """-> dict(w, h, fits, tidy, realizable, sink=[(x,y)|None ...] (one more than in ports: a foreign port), src=[...]) or None"""
+    f = [x.strip() for x in a.split('|')]
+    if len(f) != 4:
+        return None
+    try:
+        w, h = [int(v) for v in f[0].split(',')]
+        fl = [v == '1' for v in f[1].split(',')]
+
+        def pts(t):
+            return [None if q.strip() == '_' else tuple(int(v) for v in q.split(',')) for q in t.split(';')]
+        return dict(w=w, h=h, fits=fl[0], tidy=fl[1], realizable=fl[2], sink=pts(f[2]), src=pts(f[3]))
+    except Exception:
+        return None
+
+
+class _P:
+    """stand-in for a port: the symbols only read .name (and compare identity)"""
+    def __init__(self, name):
+        self.name = name
+
+
+class _O:
+    """stand-in for the drawn object: the symbol classes read inPorts / outPorts / ins / name / getFullPath only"""
+    def __init__(self, inames, onames):
+        self.name = 'u'
+        self.inPorts = [_P(f'i{v}') for v in inames]
+        self.outPorts = [_P(f'o{v}') for v in onames]
+        self.inOutPorts = []
+        self.ins = list(self.inPorts)
+
+    def getFullPath(self):
+        return 'standin/u'
+
+
+def standin_pin_stream(res, tier):
+    """T2 correspondence for the model of the symbol classes (Schem.Pins): the REAL getWidth / getHeight / getPortSinkPos /
+    getPortSourcePos of every class of schematic_symbols.py, instantiated on stand-in objects with every port count up to a bound
+    (repeated port names and a port that is not the object's included), against the model.  Exhaustive in class x nIn x nOut."""
+    import inspect
+    import py4hw.schematic_symbols as S
+    maxi, maxo = (6, 3) if tier == 'quick' else (12, 6)
+    cases = []
+    for name, c in inspect.getmembers(S, inspect.isclass):
+        if c.__module__ != S.__name__ or not issubclass(c, S.LogicSymbol):
+            continue
+        if name not in PIN_CLS:
+            res.broken.append(('coverage', 'pin-model', f'symbol class {name} of schematic_symbols.py has no class in the model Schem.Pins'))
+            continue
+        no = PIN_CLS[name]
+        if no in (16, 17, 18, 19):
+            variants = [([0], [0], 'marker')]
+        elif no in (13, 14, 15):
+            variants = [([], [0], 'port') if no == 13 else ([0], [], 'port') if no == 14 else ([0], [0], 'port')]
+        else:
+            variants = [(list(range(a)), list(range(b)), 'obj') for a in range(maxi + 1) for b in range(maxo + 1)]
+            # repeated names: the lookups compare names and keep the last match
+            variants += [([0, 1, 0], [0, 0], 'obj'), ([0, 0, 1, 1], [1, 0, 1], 'obj'), ([2, 2, 2], [0, 1, 1, 0], 'obj')]
+        for inames, onames, how in variants:
+            cases.append((name, c, no, inames, onames, how))
+    lines, obs = [], []
+    for name, c, no, inames, onames, how in cases:
+        try:
+            with contextlib.redirect_stdout(io.StringIO()):
+                if how == 'marker':
+                    sym = c() if no != 19 else c('w')
+                    ip, op = [None], [None]
+                elif how == 'port':
+                    prt = _P('p')
+                    sym = c(prt, 0, 0)
+                    ip, op = ([prt] if inames else []), ([prt] if onames else [])
+                else:
+                    ob = _O(inames, onames)
+                    sym = c(ob, 0, 0)
+                    ip, op = ob.inPorts, ob.outPorts
+        except Exception as e:
+            res.disagree('pin-model', dict(what=f'cannot instantiate {name} on a stand-in object: {type(e).__name__}: {e}'))
+            continue
+
+        def ask(f, prt):
+            try:
+                d = f(prt)
+                return (_int(d[0]), _int(d[1]))
+            except NotExportable:
+                return 'non-integer'
+            except Exception:
+                return None
+        foreign = _P('not-a-port-of-this-object')
+        real = dict(w=_int(sym.getWidth()), h=_int(sym.getHeight()), sink=[ask(sym.getPortSinkPos, q) for q in ip + [foreign]],
+                    src=[ask(sym.getPortSourcePos, q) for q in op + [foreign]])
+        iw = _int(getattr(sym, 'instanceWidth', 0))
+        lines.append(pins_request(no, iw, inames, onames))
+        obs.append((name, inames, onames, iw, real))
+    try:
+        ans = run_driver('Drv/C18.lean', lines)
+    except ToolFailure as e:
+        res.broken.append(('correspondence', 'pin-model', f'driver failed: {str(e)[:300]}'))
+        return
+    for (name, inames, onames, iw, real), a in zip(obs, ans):
+        m = parse_pins_answer(a)
+        res.cov['pin_standins_compared'] = res.cov.get('pin_standins_compared', 0) + 1
+        res.hist('pin_standin_classes', name)
+        if m is None:
+            res.broken.append(('correspondence', 'pin-model', f'unexpected answer {a[:80]!r}'))
+            continue
+        model = dict(w=m['w'], h=m['h'], sink=m['sink'], src=m['src'])
+        if model != real:
+            res.disagree('pin-model', dict(what='symbol class on a stand-in object', cls=name, in_names=inames, out_names=onames,
+                                           instanceWidth=iw, real=real, model=model))
+        if iw < 50:
+            res.disagree('pin-model', dict(what='instanceWidth below 50: hypothesis 50 <= iw of Shape.Realizable fails', cls=name, iw=iw))
+
+
+def fp_hits(des, L, wires):
+    """for the classification of KNOWN findings only (not the oracle): which pins of other wires lie on the figure of the given wires.
+    -> [[class of the instance | 'InPort' | 'OutPort', 'in' | 'out', port index], ...]"""
+    symof = {}
+    for s in L['syms']:
+        symof.setdefault((s['kind'], s['ref']), s)
+    pins = []
+    for i, inst in enumerate(des['insts']):
+        s = symof.get((0, i))
+        if s is None:
+            continue
+        for p, w in enumerate(inst['ins']):
+            if p < len(s['ipins']) and s['ipins'][p] is not None:
+                pins.append((w, s['ipins'][p], [inst['cls'], 'in', p]))
+        for p, w in enumerate(inst['outs']):
+            if p < len(s['opins']) and s['opins'][p] is not None:
+                pins.append((w, s['opins'][p], [inst['cls'], 'out', p]))
+    for p, w in enumerate(des['inp']):
+        s = symof.get((1, p))
+        if s is not None and s['opins'] and s['opins'][0] is not None:
+            pins.append((w, s['opins'][0], ['InPort', 'out', 0]))
+    for p, w in enumerate(des['outp']):
+        s = symof.get((2, p))
+        if s is not None and s['ipins'] and s['ipins'][0] is not None:
+            pins.append((w, s['ipins'][0], ['OutPort', 'in', 0]))
+    hits = []
+    for w in wires:
+        segs = []
+        for n in L['nets']:
+            if n['wire'] != w:
+                continue
+            segs += list(zip(n['path'], n['path'][1:]))
+            for k in (n['src'], n['snk']):
+                if 0 <= k < len(L['syms']) and L['syms'][k]['kind'] == 3:
+                    m = L['syms'][k]
+                    if len(m['ipins']) == 1 and len(m['opins']) == 1 and m['ipins'][0] and m['opins'][0]:
+                        segs.append((m['ipins'][0], m['opins'][0]))
+        for (pw, pt, desc) in pins:
+            if pw != w and any(min(a[0], b[0]) <= pt[0] <= max(a[0], b[0]) and min(a[1], b[1]) <= pt[1] <= max(a[1], b[1]) for a, b in segs):
+                if desc not in hits:
+                    hits.append(desc)
+    return hits
 
 
 # ------------------------------------------------------------------------------------------------
@@ -447,11 +652,14 @@ class Batch:
         self.tmax = 0.0
         self.timeouts = 0
         self.consts = None
+        self.pin_cache = {}      # (class number, iw, in names, out names) -> parsed answer of the pin model
+        self.pin_asked = set()
         # the interpreted checker costs about (symbols/500)^2 seconds on a layout: keep its total inside the tier's wall time
         q = tier == 'quick'
         self.cap = 2.5 if q else 25.0                   # per layout
         self.budgets = {'library': 25.0 if q else 130.0, 'random-plain': 25.0 if q else 130.0, 'exhaustive-small': 10.0 if q else 40.0}
         self.other_budget = 10.0 if q else 40.0         # per remaining stream
+        self.budgets['selfloop-classes'] = 20.0 if q else 80.0
 
     def add(self, spec, stream, obj=None, path=(), premise_expected=True):
         res = self.res
@@ -494,7 +702,7 @@ class Batch:
             if s is None:
                 # termination / "yields a schematic" clause
                 fail_or_known(res, f'Schematic({type(blk).__name__}) gave no layout: {err}',
-                              dict(stage='pnr', spec=sp, block=type(blk).__name__, error=err, feat=feat, abort=abort, kinds=[], fp_wires=[]))
+                              dict(stage='pnr', spec=sp, block=type(blk).__name__, error=err, feat=feat, abort=abort, kinds=[], fp_wires=[], fp_hits=[]))
                 res.count(('pnr-fail', json.dumps(sp, sort_keys=True)), hist={'stream': stream})
                 continue
             if self.consts is None:
@@ -552,6 +760,9 @@ class Batch:
                 n0 = n1
         per = {}
         for (n, tag), a in zip(owner, ans):
+            if isinstance(tag, tuple) and tag[0] == 'pins':
+                self.pin_cache[tag[1]] = parse_pins_answer(a)
+                continue
             per.setdefault(n, {})[tag] = a
         for n, it in enumerate(self.items):
             A = per.get(n, {})
@@ -559,6 +770,7 @@ class Batch:
             self.judge_phases(it, A)
             self.judge_tracks(it, A)
             self.judge_pass(it, A)
+            self.judge_pins(it)
         self.items = []
 
     def requests(self, it):
@@ -578,7 +790,55 @@ class Batch:
         rt, it['rt_nets'] = route_request(L, self.consts)
         if rt is not None:
             reqs.append(('rt', rt))
+        for sy in L['syms']:
+            key = self.pin_key(sy)
+            if key is not None and key not in self.pin_cache and key not in self.pin_asked:
+                self.pin_asked.add(key)
+                reqs.append((('pins', key), pins_request(key[0], key[1], key[2], key[3])))
         return reqs
+
+    @staticmethod
+    def pin_key(sy):
+        """what the geometry of this symbol may depend on: class, instanceWidth (= getWidth for the classes that keep
+        LogicSymbol.getWidth; not used by the others), port names"""
+        no = PIN_CLS.get(sy['cls'])
+        if no is None:
+            return None
+        return (no, sy['w'] if no == 0 else 0, tuple(sy['inames']), tuple(sy['onames']))
+
+    def judge_pins(self, it):
+        """model of the symbol classes vs box and pins of EVERY symbol of this layout (hypothesis `HasShape` of pinPos_injective);
+        the port counts must be inside `Realizable` (hypothesis of pins_injective_realizable)"""
+        res, sp = self.res, it['spec']
+        for k, sy in enumerate(it['L']['syms']):
+            key = self.pin_key(sy)
+            if key is None:
+                res.broken.append(('coverage', 'pin-model', f"symbol class {sy['cls']} has no class in the model Schem.Pins"))
+                continue
+            m = self.pin_cache.get(key)
+            if m is None:
+                res.broken.append(('correspondence', 'pin-model', f'no answer of the pin model for {key}'))
+                continue
+            res.cov['pin_symbols_compared'] = res.cov.get('pin_symbols_compared', 0) + 1
+
+            def off(ps, sy=sy):
+                return [None if q is None else (q[0] - sy['x'], q[1] - sy['y']) for q in ps]
+            real = dict(w=sy['w'], h=sy['h'], sink=off(sy['ipins']), src=off(sy['opins']))
+            model = dict(w=m['w'], h=m['h'], sink=m['sink'][:-1], src=m['src'][:-1])
+            if real != model:
+                res.disagree('pin-model', dict(spec=sp, what='box / pins of a symbol of a real layout', symbol=k, cls=sy['cls'],
+                                               in_names=sy['inames'], out_names=sy['onames'], real=real, model=model))
+            if not m['realizable'] and sy['kind'] != 6:
+                res.disagree('pin-model', dict(spec=sp, what='port counts outside Shape.Realizable (hypothesis of pins_injective_realizable)',
+                                               symbol=k, cls=sy['cls'], n_in=len(sy['inames']), n_out=len(sy['onames']), w=sy['w']))
+            if len(set(sy['inames'])) < len(sy['inames']) or len(set(sy['onames'])) < len(sy['onames']):
+                res.hist('pin_model_domain', 'repeated port names (outside Nodup)')
+            elif not m['fits']:
+                res.hist('pin_model_domain', f"outside Fits: {sy['cls']} {len(sy['inames'])} in / {len(sy['onames'])} out")
+            elif not m['tidy']:
+                res.hist('pin_model_domain', f"outside Tidy: {sy['cls']} {len(sy['inames'])} in / {len(sy['onames'])} out")
+            else:
+                res.hist('pin_model_domain', 'inside Fits and Tidy')
 
     def judge_phases(self, it, A):
         """models of the passes vs the real intermediate structures"""
@@ -730,6 +990,7 @@ class Batch:
             return
         if nerr:
             replay = dict(stage='check', spec=sp, block=it['block'], errors=errs[:12], n_errors=nerr, kinds=kinds, fp_wires=fp_wires, feat=feat,
+                          fp_hits=fp_hits(des, L, fp_wires), self_nets=sum(1 for n in L['nets'] if n['src'] == n['snk'] and n['src'] >= 0),
                           abort=it['abort'], design={k: des[k] for k in ('insts', 'inp', 'outp')},
                           symbols=[[s['cls'], s['name'], s['cell'], s['x'], s['y'], s['w'], s['h']] for s in L['syms']][:40],
                           nets=[[n['wire'], n['src'], n['sp'], n['snk'], n['tp'], n['path']] for n in L['nets']][:60],
@@ -880,8 +1141,24 @@ def main(res, tier, rng, replay):
                 except Exception as e:
                     res.hist('corpus_errors', fn)
 
+    # ---- the model of the symbol classes against the real methods, every class x port counts up to a bound
+    standin_pin_stream(res, tier)
+
     # ---- every symbol class of schematic_symbols.py, enumerated from the module, with every optional-port variant of its logic class
     required = symbol_class_stream(res, B)
+
+    # ---- a monitor (Scope) with 1..6 inputs in a column crossed by pass-through chains: its pins hang below its box from the fourth
+    #      on (theorem scope4_outside; class of the finding C18-scope-pin-below-box, anything else is a violation)
+    for n in range(1, 7):
+        for v in range(2 if quick else 6):
+            r = rng.fork(('scope', n, v))
+            nin = max(n, 2)
+            nodes = [{'k': 'Not', 'ni': 1, 'no': 1, 'ins': [['in', r.randint(0, nin - 1)]], 'p': {'v': 0}}]
+            for q in range(r.randint(1, 3)):
+                nodes.append({'k': 'And2', 'ni': 2, 'no': 1, 'ins': [['in', r.randint(0, nin - 1)], ['n', len(nodes) - 1, 0]], 'p': {'v': 0}})
+            outs = [['n', len(nodes) - 1, 0]]
+            nodes.append({'k': r.choice(['Scope', 'Waveform']), 'ni': n, 'no': 0, 'ins': [['in', q] for q in range(n)], 'p': {'v': 0}})
+            B.add({'kind': 'plan', 'w': 4, 'nin': nin, 'nfree': 0, 'nodes': nodes, 'outs': outs}, 'scope-rows')
 
     # ---- every structural block of the library (and every structural block inside it) at sampled widths / arities
     lib = G.library_cases(rng, tier)
@@ -933,6 +1210,18 @@ def main(res, tier, rng, replay):
     for i in range(n_cls):
         r = rng.fork(('self', i))
         B.add(G.random_plan(r, r.choice(sizes[:8]), {'fan': 0, 'self': 35, 'fb': 30, 'free': 0}, exclude=G.BINOP3_KINDS), 'random-selfloop')
+    # the self-loop class systematically: every kind x every (output, input) pair wired straight back, in the first instance column and
+    # one column further right.  The listed finding C18-self-loop is what the UNCHANGED code does with them (feedback markers, or the
+    # assertion in column 1 — after which pass-through creation stops and later self-loops are left untouched; without the assertion never a
+    # net from a symbol to itself: r['self_nets'] == 0); anything else is a violation
+    sl = G.self_loop_plans()
+    if quick:
+        multi = [pl for pl in sl if pl['nodes'][-1]['no'] >= 2]
+        rest = [pl for pl in sl if pl['nodes'][-1]['no'] < 2]
+        sl = multi + rng.fork('selfloop-classes').shuffle(rest)[:40]
+    for pl in sl:
+        B.add(pl, 'selfloop-classes')
+    res.cov['selfloop_class_specs'] = len(sl)
     # Add with a carry-in (third input pin of the round symbol) among other things, otherwise outside the classes above
     got = 0
     for i in range(n_cls * 12):
